@@ -145,10 +145,51 @@ theorem kepContAccel_magnitude (pos vel : V3) (μ a i v da di dOmega duration : 
 
 /-! ## 3. A frame attached to an orbit -/
 
-/-- **The orbit a frame is attached to sits at that frame's origin** (any orientation tag, any state). -/
-theorem orbit_frame_origin (t : Tag) (ref : St) : frameTo t ref ref = ⟨V3.zero, V3.zero⟩ := by
+/-- the orbit a frame is attached to sits at that frame's origin when everything is expressed around one centre -/
+theorem orbit_frame_origin_same_centre (t : Tag) (ref : St) : frameTo t ref ref = ⟨V3.zero, V3.zero⟩ := by
   unfold frameTo
   simp only [V3.sub, sub_self, M3.mulVec, V3.dot, mul_zero, add_zero, V3.zero]
+
+section centres
+open BeyondVerif.Generated.FrameNames
+
+/-- **The orbit a frame is attached to sits at that frame's origin, whatever body it orbits and whatever the `parent`**:
+with the centre of the new frame linked as `orbit2frame` links it (`centreLinkedTo`, read from the `add_link` call of the
+source on every run), the reference orbit — given relative to the centre `cRef` of its own frame — maps to zero position and
+zero velocity, for every orientation tag, every position of the two centres.  (With the centre linked under `parent.center`
+instead this is false as soon as the two centres differ: `origin_displaced_if_linked_to_parent_centre`.) -/
+theorem orbit_frame_origin (t : Tag) (cRef cParent ref : St) :
+    frameToC centreLinkedTo t cRef cParent cRef ref ref = ⟨V3.zero, V3.zero⟩ := by
+  simp only [frameToC, frameOrigin, linkCentre, centreLinkedTo, St.add, St.sub, V3.add, V3.sub, sub_self, M3.mulVec, V3.dot,
+    mul_zero, add_zero, V3.zero]
+
+/-- … and a companion of the reference orbit is seen at its relative position (axes of the reference's frame: tag `other`) -/
+theorem orbit_frame_relative_position (cRef cParent ref δ : St) :
+    frameToC centreLinkedTo Tag.other cRef cParent cRef ref (St.add ref δ) = δ := by
+  obtain ⟨⟨a, b, c⟩, ⟨d, e, f⟩⟩ := δ
+  simp [frameToC, frameOrigin, linkCentre, centreLinkedTo, St.add, St.sub, V3.add, V3.sub, M3.mulVec, V3.dot, toLocal, M3.ident]
+
+/-- what linking the new centre under `parent.center` would do: the reference orbit is found at the vector between the two
+centres (3.8e8 m for a lunar orbiter with the default parent) -/
+theorem origin_displaced_if_linked_to_parent_centre (cRef cParent ref : St) :
+    frameToC CentreLink.parentCentre Tag.other cRef cParent cRef ref ref = St.sub cRef cParent := by
+  obtain ⟨⟨a, b, c⟩, ⟨d, e, f⟩⟩ := cRef
+  simp [frameToC, frameOrigin, linkCentre, St.add, St.sub, V3.add, V3.sub, M3.mulVec, V3.dot, toLocal, M3.ident]
+
+/-- around one centre the model with centres is the model without -/
+theorem frameToC_same_centre (l : CentreLink) (t : Tag) (c ref x : St) : frameToC l t c c c ref x = frameTo t ref x := by
+  have e1 : St.sub (St.add c ref) c = ref := by
+    obtain ⟨⟨a, b, c'⟩, ⟨d, e, f⟩⟩ := ref
+    simp [St.add, St.sub, V3.add, V3.sub]
+  have e2 : St.sub (St.add c x) (frameOrigin l c c ref) = ⟨V3.sub x.p ref.p, V3.sub x.v ref.v⟩ := by
+    cases l <;> simp [frameOrigin, linkCentre, St.add, St.sub, V3.add, V3.sub]
+  simp only [frameToC, frameTo, e1, e2]
+
+/-- non-vacuity: a lunar orbiter (Moon 3.8e8 m from the Earth), default parent -/
+example : frameToC centreLinkedTo Tag.other ⟨⟨380000000, 0, 0⟩, ⟨0, 1000, 0⟩⟩ ⟨V3.zero, V3.zero⟩ ⟨⟨380000000, 0, 0⟩, ⟨0, 1000, 0⟩⟩
+    ⟨⟨1838000, 0, 0⟩, ⟨0, 1600, 0⟩⟩ ⟨⟨1838000, 0, 0⟩, ⟨0, 1600, 0⟩⟩ = ⟨V3.zero, V3.zero⟩ := orbit_frame_origin _ _ _ _
+
+end centres
 
 theorem toLocal_tMul_mul (t : Tag) (pos vel y : V3) (h : NonDeg pos vel) :
     (toLocal t pos vel).tMulVec ((toLocal t pos vel).mulVec y) = y := by
